@@ -2716,6 +2716,7 @@ verdict_t check_fcase(const fcase_t& c, ctx_t& ctx)
 }
 } // namespace
 
+#ifndef VERIF_NO_MAIN
 int main(int argc, char** argv)
 {
     // the factory prototypes of the randomly initialised benchmark functions are created on first use: pin their seeds
@@ -2747,3 +2748,4 @@ int main(int argc, char** argv)
     suite.add<fcase_t>("factory", gen_fcase, check_fcase, 2900.0);
     return suite.main(static_cast<int>(args.size()), args.data());
 }
+#endif
